@@ -360,6 +360,8 @@ func (e *Env) needCh() {
 	e.Axiom("(forall ((c Int)) (! (=> (and (<= 0 c) (<= c 255)) (and (= (slen (ch c)) 1) (= (sat (ch c) 0) c))) :pattern ((ch c))))")
 	e.Axiom("(forall ((s Str)) (! (=> (= (slen s) 1) (= s (ch (sat s 0)))) :pattern ((sat s 0))))")
 	e.Axiom("(forall ((s Str) (a Int) (b Int)) (! (=> (and (= b (+ a 1)) (<= 0 a) (<= b (slen s))) (= (ssub s a b) (ch (sat s a)))) :pattern ((ssub s a b))))")
+	// prepending the character in front of a substring extends the substring to the left
+	e.Axiom("(forall ((s Str) (b Int) (d Int) (c Int)) (! (=> (and (<= 1 b) (<= b d) (<= d (slen s)) (= (sat s (- b 1)) c)) (= (scat (ch c) (ssub s b d)) (ssub s (- b 1) d))) :pattern ((scat (ch c) (ssub s b d)))))")
 }
 
 func truncate(s string, n int) string {
